@@ -391,8 +391,16 @@ func (p *program) parseArgs(args []string) error {
 	}
 
 	p.packages = p.flagSet.Args()
-	p.filters.enable = strings.Split(*enable, ",")
-	p.filters.disable = strings.Split(*disable, ",")
+	// Like the go/analysis front-end: "a, b" is the list {a, b}.
+	splitValues := func(s string) []string {
+		parts := strings.Split(s, ",")
+		for i := range parts {
+			parts[i] = strings.TrimSpace(parts[i])
+		}
+		return parts
+	}
+	p.filters.enable = splitValues(*enable)
+	p.filters.disable = splitValues(*disable)
 
 	if p.shorterErrLocation {
 		wd, err := os.Getwd()
